@@ -13,6 +13,27 @@ CHECKS = {
         "note": "Trusted: CPython ast, the analyser, callee resolution (over-approximated by name where a receiver type is unknown), RFC version constants. Assumes the decoded response's request_id is the id on the wire (C06) and that asyncio/x690 behave as documented. Not decided: nothing of substance for this property.",
         "technique": "value numbering + CFG must-pass-through + branch simulation over orderings (static)",
     },
+    "C08": {
+        "text": "Decides on all paths of PDU.decode_raw (simulated for negative, defined and undefined status values, every error-index region and list length) that a non-zero error-status raises ErrorResponse.construct(status, oid) and never returns; the status table, the index range check and the index mapping are decided exactly; handlers between decode and API are enumerated.",
+        "note": "Trusted: ast, the analyser, the RFC 3416 status table. Not decided: nothing of substance (the x690 integer decoding of the three header fields is assumed, see C06).",
+        "technique": "CFG path simulation under concrete field scenarios + class-table evaluation + guard grid for tainted subscripts (static)",
+    },
+    "C09": {
+        "text": "Path-sensitive must-authenticate analysis: under the assumption atom 'credentials carry an auth key', every function on the way from the v3 decode entry to the auth plug-in raises on every path on which the digest check did not return truthy, including paths that never reach it (cleared flag); exactness of the digest comparison, placeholder/truncation constants and argument provenance are decided.",
+        "note": "Trusted: ast, the analyser, resolution of the auth plug-in factory, RFC 3414 constants. Not decided: cryptographic strength of HMAC-96; per-bit corruption coverage follows from the decided clauses plus HMAC and is not re-proved.",
+        "technique": "inter-procedural must-pass-through with three-valued path simulation under assumption atoms (static)",
+    },
+    "C13": {
+        "text": "Release-on-all-exits of the per-attempt transport for every completion kind of the future (who-may-complete is closed), the retry loop executed over its CFG with a concrete counter for retries 1..4 and every reply/timeout pattern, and value-number identity of datagram, timeout and reply bytes.",
+        "note": "Trusted: ast, the analyser, asyncio's documented contract (close/abort release the socket; connection_lost follows a closed transport). Not decided: real elapsed time, kernel behaviour, cancellation.",
+        "technique": "typestate (acquire/release) over CFG + integer-state CFG execution + value numbering (static)",
+    },
+    "C18": {
+        "category": "proof",
+        "text": "Save/restore pairing (W subset of restored, each from a local saved before the try, finally covers the yield), atomic configure (validation dominates all stores; no call after a store), settings read at send time, and family switch from the new credentials are all decided; exact restoration at any nesting depth follows by induction on depth.",
+        "note": "Trusted: ast, the analyser, contextlib.contextmanager semantics, frozen dataclass immutability (checked). Not decided: nothing of substance.",
+        "technique": "effect analysis over the call graph + dominance (must-pass-through) + syntactic provenance of arguments (static)",
+    },
 }
 
 _PENDING = "check not built yet in this revision of /verif (DESIGN.md section 5 describes the planned static rules)"
